@@ -143,6 +143,33 @@ def make_scenarios(rng, tier, focus, count):
                 # success are collected together (nothing may be started once the failure has been observed)
                 stop = True
                 jobs = max(2, w - 1)
+        if focus == "slots" and k % 10 == 6:
+            # more parallel roots than slots, some of them FAILING while siblings are still running and others wait for a slot:
+            # a slot must come back exactly once, however the task ended
+            w = rng.choice([4, 5, 6])
+            n = w + 1
+            kk6 = lambda: rng.choice(["exp", "cmd"])
+            g = {"n": n, "target": n, "deps": [[] for _ in range(w)] + [list(range(1, w + 1))], "kind": [kk6() for _ in range(w)] + ["group"],
+                 "par": [True] * w + [False], "cachedTs": [0] * n, "stale": [False] * n, "again": False, "atLeast": False, "now": 1000, "lastTs0": 0}
+            jobs = rng.choice([2, 2, 3])
+            stop = False
+            pkgs = RC.PLACEMENTS[k % len(RC.PLACEMENTS)][:n] if n <= 6 else [""] * n
+            codes = {RC.ident_of(pkgs, t): rng.choice([1, 3, {"signal": 15}]) for t in rng.sample(range(1, w + 1), rng.choice([1, 2]))}
+            sched = {"seed": rng.randrange(1 << 30), "codes": codes, "fail_launch": [], "p_exit": rng.choice([0.2, 0.5]),
+                     "p_deliver": rng.choice([0.5, 0.9]), "allow_steal": False}
+        if focus in ("reap", "slots") and k % 10 == 9:
+            # a parallel task that cannot be LAUNCHED, then as many parallel tasks as there are slots: every one of them still
+            # gets its outcome and the run ends normally
+            w = rng.choice([2, 3])
+            n = w + 3
+            kk7 = lambda: rng.choice(["exp", "cmd"])
+            g = {"n": n, "target": n, "deps": [[]] + [[] for _ in range(w + 1)] + [list(range(1, w + 3))], "kind": [kk7() for _ in range(w + 2)] + ["group"],
+                 "par": [True] * (w + 2) + [False], "cachedTs": [0] * n, "stale": [False] * n, "again": False, "atLeast": False, "now": 1000, "lastTs0": 0}
+            jobs = w
+            stop = False
+            pkgs = RC.PLACEMENTS[k % len(RC.PLACEMENTS)][:n] if n <= 6 else [""] * n
+            sched = {"seed": rng.randrange(1 << 30), "codes": {}, "fail_launch": [RC.ident_of(pkgs, 1)], "p_exit": 0.1, "p_deliver": 0.9,
+                     "allow_steal": False}
         if focus in ("deps", "fail") and k % 10 == 8:
             # a failure reaching a task THROUGH a group: g = group(b1, b2), a depends on g, u is unrelated and keeps running;
             # b1 fails, b2 succeeds, in either completion order
